@@ -939,6 +939,100 @@ def make_jobs(ctx, tag, n_tables, gen_kw, n_trees, n_mut, must_ws=False, need_T=
     return jobs
 
 
+# ---- the documented EMPTY operator (None, arity 2: juxtaposed operands), outside the Lean model: oracle only ----------
+def juxta_case(rng):
+    """a table with exactly one (None, 2, assoc) level among 0-2 ordinary binary levels (tightest first), and a well-formed
+    expression over single-letter operands"""
+    syms = ["*", "+", "="]
+    rng.shuffle(syms)
+    n = rng.randint(1, 3)
+    pos = rng.randrange(n)
+    levels = []
+    for i in range(n):
+        assoc = rng.choice(["L", "R"])
+        levels.append([None if i == pos else syms[i], assoc])
+
+    def gen(k, depth=0):
+        # an expression of precedence level k (k == -1: an operand); levels[k] is the loosest level it may use
+        if k < 0:
+            return [rng.choice("xyz")]
+        sym = levels[k][0]
+        m = rng.choice([1, 1, 2, 2, 3, 4]) if depth < 3 else 1
+        out = gen(k - 1, depth + 1)
+        for _ in range(m - 1):
+            if sym is not None:
+                out.append(sym)
+            out += gen(k - 1, depth + 1)
+        return out
+    toks = gen(n - 1)
+    return {"levels": levels, "tokens": toks, "blank": rng.random() < 0.8}
+
+
+def juxta_expected(levels, toks):
+    """reference: recursive descent, loosest level last; left-associative chains are ONE flat group, right-associative
+    chains nest to the right; a level that finds a single operand adds no group"""
+    pos = [0]
+
+    def level(k):
+        if k < 0:
+            x = toks[pos[0]]
+            pos[0] += 1
+            return x
+        sym, assoc = levels[k]
+        items = [level(k - 1)]
+        ops = set(s for s, _ in levels if s is not None)
+        while pos[0] < len(toks) and ((sym is not None and toks[pos[0]] == sym) or (sym is None and toks[pos[0]] not in ops)):
+            if sym is not None:
+                pos[0] += 1
+            items.append(level(k - 1))
+        if len(items) == 1:
+            return items[0]
+        if assoc == "L":
+            out = [items[0]]
+            for it in items[1:]:
+                if sym is not None:
+                    out.append(sym)
+                out.append(it)
+            return out
+        acc = items[-1]
+        for it in reversed(items[:-1]):
+            acc = [it, sym, acc] if sym is not None else [it, acc]
+        return acc
+    r = level(len(levels) - 1)
+    if pos[0] != len(toks):
+        return None
+    return r if isinstance(r, list) else [r]
+
+
+def juxta_job(seed):
+    pp = common.import_pyparsing()
+    rng = random.Random(seed)
+    c = juxta_case(rng)
+    exp = juxta_expected(c["levels"], c["tokens"])
+    if exp is None:
+        return 0, []
+    s = (" " if c["blank"] else "").join(c["tokens"])
+    bad, n = [], 0
+    for mode in MODES:
+        corr_parse.set_mode(pp, tuple(mode) if isinstance(mode, list) else mode)
+        try:
+            base = pp.Char("xyz")
+            tbl = [(sym, 2, pp.OpAssoc.LEFT if a == "L" else pp.OpAssoc.RIGHT) for sym, a in c["levels"]]
+            g = pp.infix_notation(base, tbl)
+            try:
+                got = common.with_alarm(5.0, lambda: g.parse_string(s, parse_all=True).as_list())
+            except pp.ParseBaseException as ex:
+                got = f"{type(ex).__name__} at {ex.loc}"
+        finally:
+            pp.ParserElement.disable_memoization()
+        n += 1
+        want = exp if (len(exp) == 1 and not isinstance(exp[0], list)) else [exp]
+        if got != want:
+            bad.append({"juxta_seed": seed, "levels": c["levels"], "input": s, "mode": list(mode), "expected": want, "actual": got})
+            break
+    return n, bad
+
+
 def run(ctx):
     common.import_pyparsing()
     if THEOREMS:
@@ -962,6 +1056,15 @@ def run(ctx):
     run_behaviour(ctx, "model-vs-real:infixGrammar+parseX", bj)
     run_spec(ctx, "spec-vs-real:render/nest", jt)
     run_oracle(ctx, "oracle:class-T", jt)
+    # the empty operator (juxtaposition), left and right associative, next to ordinary binary levels (oracle only)
+    jseeds = [f"C16-{ctx.seed}-jx-{i}" for i in range(ctx.budget(400, 4000))]
+    resj = common.pmap(juxta_job, jseeds)
+    badj = [m for r_ in resj for m in r_[1]]
+    ctx.count_cases("oracle:empty-operator", sum(r_[0] for r_ in resj), outcomes={"mismatch": len(badj)}, samples=[{"juxta_seed": jseeds[0]}])
+    for m in badj[:2]:
+        ctx.fail_input("infix_notation with the empty operator (None, 2, assoc) does not group as precedence and associativity dictate",
+                       m, m["expected"], m["actual"], theorem="C16 statement (oracle only: the empty operator is outside PP.Infix)",
+                       how="harness.props.c16.juxta_job(juxta_seed)")
     # overlapping spellings (<, <=, *, **, -, --): tokens separated by blanks, rendered trees only (a mutation may glue
     # two tokens into a longer spelling, where scannerless matching and maximal munch legitimately differ)
     jo = make_jobs(ctx, "OV", ctx.budget(120, 1200), dict(overlapping=True, max_levels=4), 6, 0, must_ws=True, need_T=False)
@@ -1003,6 +1106,8 @@ def run_corpus(ctx):
 def replay(data):
     if data.get("replay_kind") == "failing-input":
         c = data["case"]
+        if "juxta_seed" in c:
+            return bool(juxta_job(c["juxta_seed"])[1])
         if "tbl" in c:
             pp = common.import_pyparsing()
             prog, rootv = table_prog(c["tbl"], c.get("par_variant", 0))
